@@ -8,10 +8,10 @@ KINDS = {
     "C03": {"linearizability", "panic"},
     "C04": {"linearizability", "panic"},
     "C05": {"callback", "linearizability"},
-    "C06": {"deadlock", "livelock"},
+    "C06": {"deadlock", "livelock", "lockorder"},
     "C08": {"shape"},
     "C09": {"locks", "panic", "deadlock"},
-    "C10": {"coupling"},
+    "C10": {"coupling", "resting"},
 }
 PROFILES = {
     "C03": ["point", "point", "delete"],
@@ -182,7 +182,7 @@ def _check(pid, tier, sc, t0, sink=None):
         tie_broken.append(dict(kind="extracted-facts", detail=facts["problems"][:6]))
     ncases, nsched = {"quick": (900, 16), "thorough": (12000, 40)}[tier]
     corpus = load_corpus(pid)
-    cases = corpus + genconc.catalogue() + gen_cases(pid, rng, ncases, nsched)
+    cases = corpus + genconc.catalogue() + genconc.scaled_catalogue(full=(tier == "thorough")) + genconc.tall_catalogue(sizes=((9, 13, 17) if tier == "quick" else (9, 13, 17, 27, 41))) + genconc.spine_cases(nsched=(3 if tier == "quick" else 12)) + gen_cases(pid, rng, ncases, nsched)
     runs, dfs, errs = run_parallel(bindir, sc, "main", cases)
     violations, known_hits = [], {}
     for e in errs:
@@ -221,7 +221,8 @@ def _check(pid, tier, sc, t0, sink=None):
     distinct = len({vlib.trace_hash(r["lines"]) for r in runs if any(l.startswith("a ") for l in r["lines"])})
     stats = dict(runs=len(runs), cases=len(cases), dfs=dfs[:20],
                  threads={}, with_cursor=sum(1 for c in cases if has_cursor(c)),
-                 steps=sum(len(r["sched"].split()) for r in runs))
+                 steps=sum(len(r["sched"].split()) for r in runs),
+                 lockorder_states_checked=sum(int(l.split()[3]) for r in runs for l in r["lines"] if l.startswith("# lockorder states")))
     for c in cases:
         n = sum(1 for l in c if l.startswith("thread"))
         stats["threads"][str(n)] = stats["threads"].get(str(n), 0) + 1
